@@ -48,11 +48,16 @@ func (f *Typep) Call(s *slip.Scope, args slip.List, depth int) slip.Object {
 	slip.CheckArgCount(s, depth, f, args, 2, 2)
 	sym, ok := args[1].(slip.Symbol)
 	if !ok {
+		if args[1] == slip.True { // the type t, every object is of it
+			return slip.True
+		}
 		slip.TypePanic(s, depth, "type", args[1], "symbol")
 	}
 	switch ta := args[0].(type) {
 	case nil:
-		if strings.EqualFold("null", string(sym)) {
+		// nil is the empty list, a symbol and false.
+		switch strings.ToLower(string(sym)) {
+		case "null", "list", "sequence", "symbol", "atom", "boolean", "t":
 			return slip.True
 		}
 	case slip.List:
